@@ -5,7 +5,9 @@ from checks.c09 import vlib_corpus
 from checks.c11 import FIXTURES
 from specgen import ops_spec
 
-PAYLOADS = ['q"uote', 'back\\slash', 'end */ comment', 'br]acket', '#[derive(Evil)]', 'fmt {} {0} {x}', '"# raw', 'line1\nline2', 'nul\x00byte', 'bidi‮evil', 'x' * 700, 'lit\\nnewline', '// slash', '/* open', 'tick`tick', '"); panic!("x', "single'quote", '{{double}}', '$crate::x', "\\u{41}", 'tab\there']
+PAYLOADS = ['q"uote', 'back\\slash', 'end */ comment', 'br]acket', '#[derive(Evil)]', 'fmt {} {0} {x}', '"# raw', 'line1\nline2', 'nul\x00byte', 'bidi‮evil', 'x' * 700, 'lit\\nnewline', '// slash', '/* open', 'tick`tick', '"); panic!("x', "single'quote", '{{double}}', '$crate::x', "\\u{41}", 'tab\there', 'cr\r\nlf', 'x\npub mod injected {', '1.0\n}']
+# line breaks end a `//` comment and a one-line attribute: always part of the quick sample
+ALWAYS = ['line1\nline2', 'cr\r\nlf', 'x\npub mod injected {']
 
 
 # values of NON-string members written as strings: the text is the WHOLE value and starts like a number
@@ -53,6 +55,7 @@ POSITIONS = [
     (("components", "schemas", "Pet", "properties", "fixed", "const"), False, "lit"),
     (("info", "title"), True, "doc"),
     (("info", "description"), False, "doc"),
+    (("info", "version"), False, "doc"),
     (("servers", 0, "url"), False, "lit"),
     (("paths", "/pets/{id}", "get", "summary"), False, "doc"),
     (("paths", "/pets/{id}", "get", "description"), False, "doc"),
@@ -68,7 +71,7 @@ POSITIONS = [
     (("components", "schemas", "Pet", "properties", "cone", "enum", 0), False, "none"),
     (("paths", "/pets/{id}", "get", "parameters", 1, "schema", "default"), False, "none"),
 ]
-N_TEXT = 17                      # positions [0, N_TEXT) carry text; the rest are non-string members / parameters
+N_TEXT = 18                      # positions [0, N_TEXT) carry text; the rest are non-string members / parameters
 PATTERN_POS = 5
 
 
@@ -132,7 +135,7 @@ def run(ctx):
         for pi in range(len(POSITIONS)):
             kind = "text" if pi < N_TEXT else "num"
             pool = PAYLOADS if kind == "text" else NUM_PAYLOADS
-            pays = pool if not ctx.quick else r.sample(pool, 7 if kind == "text" else 3)
+            pays = pool if not ctx.quick else (ALWAYS + r.sample([x for x in pool if x not in ALWAYS], 5) if kind == "text" else r.sample(pool, 3))
             plan = [(kind, x) for x in pays]
             if pi == PATTERN_POS:
                 plan += [("rawpat", x) for x in PAT_PAYLOADS]
@@ -152,4 +155,4 @@ def run(ctx):
     return ctx.finish(
         checker_cmd="lake build Oas3Model.Props.C19 && #print axioms on every theorem" + ("" if ctx.quick else " && leanchecker"),
         trusted_base=vlib.TRUSTED_BASE + ["syn/prettyplease printing of string literals and doc attributes (token -> text) is trusted; the comparison is on tokens re-parsed from the emitted text", "which macro arguments are format strings is recognised by macro name (write!/format!/println!/…)"],
-        rule="a catalogue of 21 injection payloads (+ 11 number-like texts as the whole value of non-string members and parameters: default/const/single enum of integer, int32, uint32, number, boolean; + 9 valid regular expressions with string / raw-string terminators next to backslashes, inserted unescaped as `pattern`) (quote/escape breakers, comment terminators, attribute syntax, format braces, raw-string terminators, newlines, NUL, bidi controls, long text, `\\n` escapes) substituted at 17 text-bearing positions (descriptions, summaries, titles, enum/const/default/example values, pattern, server URL, response descriptions, discriminator mapping keys) of a generated spec, client-mod and server-mod, merge and relaxed enum modes (all 21x17x2 thorough; 7 payloads x 1 mode quick), each compared with the same spec carrying inert text: token skeleton with literals and docs erased must be identical (identifier-deriving positions: identical shape), every literal used as a format string must print itself, the payload must be recoverable from the literals/docs; non-trivial = every pair; distinct by (position, payload, mode)")
+        rule="a catalogue of 24 injection payloads (+ 11 number-like texts as the whole value of non-string members and parameters: default/const/single enum of integer, int32, uint32, number, boolean; + 9 valid regular expressions with string / raw-string terminators next to backslashes, inserted unescaped as `pattern`) (quote/escape breakers, comment terminators, attribute syntax, format braces, raw-string terminators, newlines, NUL, bidi controls, long text, `\\n` escapes) substituted at 18 text-bearing positions (descriptions, summaries, titles, enum/const/default/example values, pattern, server URL, response descriptions, discriminator mapping keys) of a generated spec, client-mod and server-mod, merge and relaxed enum modes (all thorough; the three line-break payloads + 5 sampled x 1 mode quick), each compared with the same spec carrying inert text: token skeleton with literals and docs erased must be identical (identifier-deriving positions: identical shape), every literal used as a format string must print itself, the payload must be recoverable from the literals/docs; non-trivial = every pair; distinct by (position, payload, mode)")
